@@ -24,7 +24,7 @@ def run(ctx):
             if res.stats.get(k, 0) == 0 and not res.viol:
                 res.incon.append("resumption mode never exercised: " + k)
 
-    return vflib.std_run(ctx, st, "differential_vs_independent_implementation", rule,
+    return vflib.std_run(ctx, st, "exploration", rule,
         ["conformance = agreement with OpenSSL 3.0; a deviation shared with OpenSSL is invisible",
          "OpenSSL policy knobs opened: security level 0, exact protocol version, SSL_OP_LEGACY_SERVER_CONNECT for the OpenSSL client "
          "(this MatrixSSL build has renegotiation compiled out and sends no renegotiation_info)",
